@@ -95,7 +95,7 @@ theorem ex7_diverges : ∀ F, evalB F ex7R {} = .fuel := by
 /-- non-vacuity, stage 7 (a function literal nested in a function body whose call never ends) -/
 example : ∃ bc, compileProgram ex7DivAst = .ok (ex7R, bc) ∧ inFragment7 ex7R = true ∧ (∀ F, Spec.evalB F ex7R {} = .fuel) ∧
     ∀ n, (∃ s', runSteps bc.code n (VM.start {} bc) = .budget s') ∨
-         (∃ n0 s', ∀ k, runSteps bc.code (n0 + k) (VM.start {} bc) = .error .index s') := by
+         HitsLimit bc := by
   have hin : inFragment7 ex7R = true := by decide
   cases hc : compileProgram ex7DivAst with
   | error e =>
